@@ -16,9 +16,17 @@ TOL_UNRESOLVED = 1.0
 TOL_INTERP = 1e-8
 
 
-def element(z):
+ISOTOPES = {1: ["protium", "deuterium", "tritium"], 2: ["helium3", "helium4"], 3: ["lithium6", "lithium7"], 6: ["carbon12", "carbon13"]}
+
+
+def element(z, isotope_pick=None):
+    """the Element of atomic number z, or (isotope_pick = an integer) one of its Isotope objects: the entry points
+    accept both (they only use .atomic_number / .name) and the rate tables are those of the element"""
     from cherab.core.atomic import elements as E
-    el = getattr(E, ELEMENT_NAMES[z - 1])
+    name = ELEMENT_NAMES[z - 1]
+    if isotope_pick is not None and z in ISOTOPES:
+        name = ISOTOPES[z][isotope_pick % len(ISOTOPES[z])]
+    el = getattr(E, name)
     assert el.atomic_number == z
     return el
 
@@ -62,7 +70,7 @@ def make_stub(tag, scale, span, cx_zero=False):
 
 
 def point_rates(case, n_e, t_e):
-    z, tag, scale, span = case["Z"], case["tag"], case["scale"], case["span"]
+    z, tag, scale, span = case["Z"], case["tag"], case.get("scale_eff", case["scale"]), case["span"]
     ion = [rate_value(tag, ("ion", z, c), scale, span, n_e, t_e) for c in range(z)]
     rec = [rate_value(tag, ("rec", z, c), scale, span, n_e, t_e) for c in range(1, z + 1)]
     cx = None
@@ -175,7 +183,8 @@ NEEDS_DONOR = ("same_net", "const_net", "sep2d", "const_donor")
 def gen_case(rng, idx, rep, stream, z=None, force_donor=False, structure="indep"):
     z = z or rng.choice([1, 1, 2, 2, 3, 4, 5, 6, 6, 7, 8, 9, 10, 10, 11, 12, 13, 14, 15, 16, 17, 18, 18])
     realistic = rng.random() < 0.7
-    donor_mode = rng.choice(["none"] * 3 + ["donor"] * 6 + ["donor_zero"] * 2 + ["donor_nodens"] * 2)
+    donor_mode = rng.choice(["none"] * 3 + ["donor"] * 6 + ["donor_zero"] * 2 + ["donor_nodens"] * 2
+                            + ["donor_negzero", "donor_tiny", "dens_nodonor"])
     if rep in ("scalar", "fun1d_scalar"):
         structure = "indep"
     if structure == "sep2d" and rep not in ("array2d", "fun2d", "interp2d"):
@@ -183,24 +192,45 @@ def gen_case(rng, idx, rep, stream, z=None, force_donor=False, structure="indep"
     if force_donor or structure in NEEDS_DONOR:
         donor_mode = "donor"
     donor = None
-    if donor_mode != "none":
+    if donor_mode not in ("none", "dens_nodonor"):
         dz = rng.choice([1, 1, 1, 2, 3])
         donor = (dz, rng.randint(0, dz - 1))
     if rep == "scalar" or rep == "fun1d_scalar":
         shape = (1,)
-    elif rep in ("array1d", "fun1d", "mixed1d", "interp1d"):
+    elif rep in ("array1d", "fun1d", "mixed1d"):
+        shape = (rng.choice([1, 2, 2, 3, 3, 4]),)          # N = 1 and N = 2 profiles are regular sizes
+    elif rep == "interp1d":
         shape = (rng.randint(2, 4),)
     elif rep == "eqmap":
         shape = (rng.randint(3, 4),)
     else:
         shape = (2, rng.randint(2, 3))
+    if structure in ("same_ne", "same_te") and shape == (1,):
+        shape = (2,)
+    # scale class: rates * 2^k (the balance is scale-covariant).  The n_e-weighted least-squares solve of the code is not:
+    # it is accurate only while n_e * rate stays within about [1e-3, 1e11] (measured; outside: recorded finding, see the
+    # scale probes in harness/c09.py), so k is drawn from [-20, 20] intersected with that window.
+    import math
+    scale0 = 10.0 ** rng.uniform(-16, -13) if realistic else 10.0 ** rng.uniform(-1, 1)
+    ne_dec = rng.uniform(18, 20) if realistic else rng.uniform(-1, 1)
+    p_lo = 0.5 * 10.0 ** ne_dec * scale0                                   # smallest n_e * smallest rate
+    p_hi = 2.0 * 10.0 ** ne_dec * scale0 * 10.0 ** STREAMS[stream]["span"] * 8.0   # largest n_e * largest rate (* donor factor)
+    k_lo = max(-20, int(math.ceil(math.log2(1e-2 / p_lo))))
+    k_hi = min(20, int(math.floor(math.log2(1e10 / p_hi))))
+    scale_pow2 = rng.randint(k_lo, k_hi) if k_lo <= k_hi else 0
     return {"idx": idx, "rep": rep, "stream": stream, "structure": structure, "sep_swap": rng.random() < 0.5, "span": STREAMS[stream]["span"], "Z": z,
-            "scale": 10.0 ** rng.uniform(-16, -13) if realistic else 10.0 ** rng.uniform(-1, 1),
-            "ne_decade": rng.uniform(18, 20) if realistic else rng.uniform(-1, 1),
+            "scale": scale0, "ne_decade": ne_dec,
             "donor_mode": donor_mode, "donor": donor, "shape": shape,
             "tag": "s%d" % rng.getrandbits(40), "n_species": rng.choice([0, 1, 2]),
             "species_container": rng.choice(["dict", "ndarray"]),
-            "infeasible": rng.random() < 0.08, "sub": rng.getrandbits(32)}
+            "infeasible": False, "sub": rng.getrandbits(32),
+            # neutrality class: feasible / infeasible at every point / alternating along the profile (crosses the clamp) /
+            # species charge exactly n_e, one ulp below, one ulp above / the same species object passed twice
+            "neut_class": rng.choice(["feasible"] * 6 + ["infeasible", "mixed", "mixed", "exact", "below", "above", "repeated"]),
+            # argument forms of array / scalar inputs (all accepted by the unchanged code)
+            "form": rng.choice(["plain"] * 3 + ["int_te", "f32", "noncontig", "fortran", "readonly"]),
+            "call_form": rng.choice(["positional", "positional", "keyword", "default_charge"]),
+            "isotope": rng.random() < 0.5, "scale_pow2": scale_pow2}
 
 
 def _lin1d(vals, fv):
@@ -241,12 +271,18 @@ def run_case(ib, rec, case, rng_mod):
     import random
     rng = random.Random(case["sub"])
     z, rep, shape = case["Z"], case["rep"], case["shape"]
-    el = element(z)
+    iso = rng.randrange(6) if case.get("isotope") else None
+    el = element(z, iso)
     npts = int(np.prod(shape))
-    ad = make_stub(case["tag"], case["scale"], case["span"])
+    case["scale_eff"] = case["scale"] * 2.0 ** case.get("scale_pow2", 0)      # rates scaled by a power of two: exact
+    ad = make_stub(case["tag"], case["scale_eff"], case["span"])
     donor_el, donor_charge = (None, 0)
     if case["donor"] is not None:
-        donor_el, donor_charge = element(case["donor"][0]), case["donor"][1]
+        donor_el, donor_charge = element(case["donor"][0], iso), case["donor"][1]
+    case["element_name"] = el.name
+    form = case.get("form", "plain")
+    neut_class = case.get("neut_class", "infeasible" if case.get("infeasible") else "feasible")
+    extra_fails = []          # (claim, detail) found by the sequence / helper checks below; reported by the search
     base = 10.0 ** case["ne_decade"]
 
     def rnd(lo, hi):
@@ -322,20 +358,52 @@ def run_case(ib, rec, case, rng_mod):
             return f, [float(f(float(x), float(y))) for x in free_variable[0] for y in free_variable[1]]
         raise AssertionError(rep)
 
-    def make_profile(lo, hi, positive=True, allow_zero=False, pattern="indep"):
+    def apply_form(arr, float32_ok, integer):
+        """unusual but valid array forms (values unchanged): integer dtype, float32 where exact, non-contiguous view,
+        Fortran order, read-only"""
+        if integer:
+            return arr.astype(np.int64)
+        if form == "f32" and float32_ok and np.all(arr.astype(np.float32).astype(np.float64) == arr):
+            return arr.astype(np.float32)
+        if form == "noncontig":
+            v = np.repeat(arr, 2, axis=-1)[..., ::2]
+            assert not v.flags["C_CONTIGUOUS"] or v.size <= 1
+            return v
+        if form == "fortran" and arr.ndim == 2:
+            return np.asfortranarray(arr)
+        if form == "readonly":
+            v = arr.copy()
+            v.setflags(write=False)
+            return v
+        return arr
+
+    def make_profile(lo, hi, positive=True, allow_zero=False, pattern="indep", integer=False, float32_ok=False, negzero=False):
         """make_profile_once, then the values the representation actually yields at the evaluated points are read back
         and checked against the domain: a value meant to be exactly zero must read back as exactly 0.0 and no value may
         be negative (linear interpolation at a knot next to a large neighbour can return -ulp instead of 0); offending
         draws are replaced by positive ones and the representation is rebuilt.  Exact zeros therefore stay a regular
         boundary class wherever the representation reproduces them exactly (arrays always, functions when exact)."""
         draws = [quant(rnd(lo, hi)) for _ in range(npts)]
-        if allow_zero and pattern == "indep" and rng.random() < 0.3:
-            draws[rng.randrange(npts)] = 0.0
+        if integer:
+            draws = [float(rng.randint(int(lo) + 1, int(hi))) for _ in range(npts)]
+        if allow_zero and pattern == "indep" and rng.random() < 0.4:
+            if rng.random() < 0.5 or npts < 3:
+                draws[rng.randrange(npts)] = 0.0
+            else:                                   # positive -> zero -> positive -> ... along the profile
+                draws = [d if k % 2 == 0 else 0.0 for k, d in enumerate(draws)]
         for attempt in range(8):
             r, pts_v = make_profile_once(lo, hi, draws, pattern)
+            if isinstance(r, np.ndarray):
+                r = apply_form(r, float32_ok, integer)
+            elif rep == "scalar" and integer:
+                r = int(r) if rng.random() < 0.5 else np.int64(r)
+            elif rep == "scalar" and float32_ok and form == "f32" and float(np.float32(r)) == float(r):
+                r = np.float32(r)
             bad = [k for k, v in enumerate(pts_v) if v < 0.0 or (lo > 0.0 and v <= 0.0 and 0.0 not in draws) or
                    (0.0 in draws and v != 0.0 and abs(v) < 1e-9 * hi)]
             if not bad:
+                if negzero and isinstance(r, np.ndarray) and r.dtype == np.float64 and r.flags.writeable:
+                    r[r == 0.0] = -0.0                      # -0.0 is a valid zero density
                 return r, pts_v
             draws = [quant(rnd(max(lo, 0.01 * hi), hi)) if d == 0.0 else d for d in draws]
         raise GeneratorDomainError("could not build a %s profile in [%r, %r] inside the domain: %r" % (rep, lo, hi, pts_v))
@@ -355,16 +423,22 @@ def run_case(ib, rec, case, rng_mod):
     }[structure]
 
     ne_rep, ne_pts = make_profile(0.5 * base, 2.0 * base, pattern=pat_ne)
-    te_rep, te_pts = make_profile(1.0, 1000.0, pattern=pat_te)
+    te_rep, te_pts = make_profile(1.0, 1000.0, pattern=pat_te, integer=(form == "int_te"), float32_ok=True)
     if rep == "mixed1d" and not isinstance(ne_rep, np.ndarray) and not isinstance(te_rep, np.ndarray):
         te_arr = np.array(te_pts)
         te_rep, te_pts = te_arr, [float(v) for v in te_arr]
     nd_rep, nd_pts = None, [0.0] * npts
     if case["donor_mode"] == "donor":
-        nd_rep, nd_pts = make_profile(0.01 * base, 3.0 * base, allow_zero=True, pattern=pat_nd)
+        nd_rep, nd_pts = make_profile(0.01 * base, 3.0 * base, allow_zero=True, pattern=pat_nd, negzero=rng.random() < 0.5)
     elif case["donor_mode"] == "donor_zero":
         nd_rep, nd_pts = make_profile(0.0, 0.0)
-    nel_rep, nel_pts = make_profile(1e-4 * base, 1e-2 * base)
+    elif case["donor_mode"] == "donor_negzero":
+        nd_rep, nd_pts = make_profile(0.0, 0.0, negzero=True)
+    elif case["donor_mode"] == "donor_tiny":                 # negligible but non-zero donor
+        nd_rep, nd_pts = make_profile(base * 2.0 ** -81, base * 2.0 ** -80)
+    elif case["donor_mode"] == "dens_nodonor":               # a donor density without a donor species: must be ignored
+        nd_rep, nd_pts = make_profile(0.01 * base, 3.0 * base)
+    nel_rep, nel_pts = make_profile(1e-4 * base, 1e-2 * base, float32_ok=True)
     # species for the neutrality variant: arrays (n_states, *shape) or dicts {charge: profile}.  The model indexes by
     # charge; the dictionaries are handed over in descending / random / ascending key order, with int / numpy-integer /
     # mixed keys, hand-made or taken from the package's own from_elementdensity / interpolators output and re-ordered.
@@ -390,11 +464,20 @@ def run_case(ib, rec, case, rng_mod):
     if free_variable is not None and rep not in ("interp1d", "interp2d", "eqmap"):
         own_kw["free_variable"] = free_variable if not isinstance(free_variable, tuple) else (free_variable[0].copy(), free_variable[1].copy())
     species_reps, species_pts = [], []
-    nsp = max(case["n_species"], 1 if case["infeasible"] else 0)
+    nsp = max(case["n_species"], 0 if neut_class == "feasible" else 1)
+    if neut_class in ("exact", "below", "above"):
+        # one species whose charge is exactly n_e / one ulp below / one ulp above at every point: the clamp
+        # `element_n_e < 0` is met at its boundary (n_e - 1 * v is exact in floating point)
+        nsp = 0
+        edge = {"exact": lambda v: v, "below": lambda v: float(np.nextafter(v, 0.0)), "above": lambda v: float(np.nextafter(v, np.inf))}[neut_class]
+        rows = [[quant(rnd(0, base)) for _ in range(npts)], [edge(v) for v in ne_pts]]
+        species_pts.append(rows)
+        species_reps.append(reorder({c: np.array(rows[c]).reshape(shape) for c in range(2)}))
+        case.setdefault("species_sources", []).append("edge-" + neut_class)
     for s in range(nsp):
         zs = rng.randint(1, 6)
-        amp = (2.0 if case["infeasible"] else 0.2) * base / (nsp * zs)
-        source = rng.choice(["hand", "hand", "own"])
+        amp = (2.0 if neut_class == "infeasible" else 0.2) * base / (nsp * zs)
+        source = rng.choice(["hand", "hand", "own"]) if neut_class != "mixed" else "hand"
         if source == "own":
             h = amp * (zs + 1) / 2.0
             nel2_rep, _ = make_profile(0.1 * h, h)
@@ -413,7 +496,8 @@ def run_case(ib, rec, case, rng_mod):
             species_pts.append(pts_s)
             continue
         case.setdefault("species_sources", []).append("hand-made")
-        arr = np.array([[quant(rnd(0, amp)) for _ in range(npts)] for _ in range(zs + 1)]).reshape((zs + 1,) + tuple(shape))
+        arr = np.array([[quant(rnd(0, amp)) * (16.0 if neut_class == "mixed" and k % 2 == 1 else 1.0) for k in range(npts)]
+                        for _ in range(zs + 1)]).reshape((zs + 1,) + tuple(shape))     # mixed: feasible, infeasible, feasible, ...
         if rep in ("fun1d", "interp1d", "eqmap") and rng.random() < 0.5 and len(fv) >= 2:
             d = {c: _lin1d(arr[c], fv) for c in range(zs + 1)}
             species_reps.append(reorder(d))
@@ -428,6 +512,9 @@ def run_case(ib, rec, case, rng_mod):
                 case.setdefault("species_orders", []).append("ndarray")
                 species_reps.append(arr.copy())
             species_pts.append([[float(v) for v in arr[c].flat] for c in range(zs + 1)])
+    if neut_class == "repeated" and species_reps:
+        species_reps.append(species_reps[0])              # the very same object twice: counted twice
+        species_pts.append(species_pts[0])
     # species read back through interpolators may come out as -ulp next to a large neighbour: hand those over as arrays
     for si in range(len(species_reps)):
         if any(v < 0.0 for row in species_pts[si] for v in row):
@@ -465,7 +552,15 @@ def run_case(ib, rec, case, rng_mod):
         kw["free_variable"] = free_variable if not isinstance(free_variable, tuple) else (free_variable[0].copy(), free_variable[1].copy())
         if isinstance(free_variable, tuple) and rng.random() < 0.5:
             kw["free_variable"] = list(kw["free_variable"])      # list or tuple of coordinate arrays
-    donor_args = (donor_el, nd_rep, donor_charge)
+    # the donor arguments positionally, as keywords, or leaving tcx_donor_charge to its default (when it is 0)
+    call_form = case.get("call_form", "positional")
+    donor_args, dk = (donor_el, nd_rep, donor_charge), {}
+    if call_form == "keyword":
+        donor_args, dk = (), {"tcx_donor": donor_el, "tcx_donor_n": nd_rep, "tcx_donor_charge": donor_charge}
+    elif call_form == "default_charge" and donor_charge == 0:
+        donor_args = (donor_el, nd_rep)
+    inputs_before = [(nm, r.copy()) for nm, r in (("n_e", ne_rep), ("t_e", te_rep), ("tcx_donor_n", nd_rep), ("element_density", nel_rep))
+                     if isinstance(r, np.ndarray)]
 
     def flat(dct):
         """{charge: array} -> per point list over charge"""
@@ -488,19 +583,19 @@ def run_case(ib, rec, case, rng_mod):
     sp_list = [p["species"] for p in points]
     if rep in ("scalar", "array1d", "array2d", "fun1d", "fun1d_scalar", "fun2d", "mixed1d"):
         rec.calls, rec.on = [], True
-        out = ib.fractional_abundance(ad, el, ne_rep, te_rep, *donor_args, **kw)
+        out = ib.fractional_abundance(ad, el, ne_rep, te_rep, *donor_args, **dk, **kw)
         rec.on = False
         if len(rec.calls) == npts:
             for k in range(npts):
                 points[k]["matrix"] = (rec.calls[k][0].tolist(), rec.calls[k][1].tolist(), rec.calls[k][2])
         case["lsq_calls_seen"] = len(rec.calls)
         add("frac", "fractional_abundance[%s]" % rep, flat(out))
-        out = ib.from_elementdensity(ad, el, nel_rep, ne_rep, te_rep, *donor_args, **kw)
+        out = ib.from_elementdensity(ad, el, nel_rep, ne_rep, te_rep, *donor_args, **dk, **kw)
         add("dens", "from_elementdensity[%s]" % rep, flat(out), n_el=nel_list)
-        out = ib.match_plasma_neutrality(ad, el, species_reps, ne_rep, te_rep, *donor_args, **kw)
+        out = ib.match_plasma_neutrality(ad, el, species_reps, ne_rep, te_rep, *donor_args, **dk, **kw)
         add("neut", "match_plasma_neutrality[%s]" % rep, flat(out), species=sp_list)
     elif rep == "interp1d":
-        itp = ib.interpolators1d_fractional(ad, el, fv.copy(), ne_rep, te_rep, *donor_args)
+        itp = ib.interpolators1d_fractional(ad, el, fv.copy(), ne_rep, te_rep, *donor_args, **dk)
         add("frac", "interpolators1d_fractional@knots", [[float(itp[c](float(x))) for c in range(z + 1)] for x in fv])
         case["lerp"] = []
         for k in range(npts - 1):
@@ -509,33 +604,33 @@ def run_case(ib, rec, case, rng_mod):
             wex = (F(x) - F(fv[k])) / (F(fv[k + 1]) - F(fv[k]))
             case["lerp"].append({"k": k, "other": k + 1, "w": wex, "scale": 1.0, "src": "interpolators1d_fractional@%r" % x,
                                  "values": [float(itp[c](x)) for c in range(z + 1)]})
-        itp = ib.interpolators1d_from_elementdensity(ad, el, fv.copy(), nel_rep, ne_rep, te_rep, *donor_args)
+        itp = ib.interpolators1d_from_elementdensity(ad, el, fv.copy(), nel_rep, ne_rep, te_rep, *donor_args, **dk)
         add("dens", "interpolators1d_from_elementdensity@knots",
             [[float(itp[c](float(x))) for c in range(z + 1)] for x in fv], n_el=nel_list)
-        itp = ib.interpolators1d_match_plasma_neutrality(ad, el, fv.copy(), species_reps, ne_rep, te_rep, *donor_args)
+        itp = ib.interpolators1d_match_plasma_neutrality(ad, el, fv.copy(), species_reps, ne_rep, te_rep, *donor_args, **dk)
         add("neut", "interpolators1d_match_plasma_neutrality@knots",
             [[float(itp[c](float(x))) for c in range(z + 1)] for x in fv], species=sp_list)
     elif rep == "interp2d":
         fx, fy = free_variable
         grid = [(float(x), float(y)) for x in fx for y in fy]
-        itp = ib.interpolators2d_fractional(ad, el, (fx.copy(), fy.copy()), ne_rep, te_rep, *donor_args)
+        itp = ib.interpolators2d_fractional(ad, el, (fx.copy(), fy.copy()), ne_rep, te_rep, *donor_args, **dk)
         add("frac", "interpolators2d_fractional@knots", [[float(itp[c](x, y)) for c in range(z + 1)] for x, y in grid])
-        itp = ib.interpolators2d_from_elementdensity(ad, el, (fx.copy(), fy.copy()), nel_rep, ne_rep, te_rep, *donor_args)
+        itp = ib.interpolators2d_from_elementdensity(ad, el, (fx.copy(), fy.copy()), nel_rep, ne_rep, te_rep, *donor_args, **dk)
         add("dens", "interpolators2d_from_elementdensity@knots",
             [[float(itp[c](x, y)) for c in range(z + 1)] for x, y in grid], n_el=nel_list)
-        itp = ib.interpolators2d_match_plasma_neutrality(ad, el, (fx.copy(), fy.copy()), species_reps, ne_rep, te_rep, *donor_args)
+        itp = ib.interpolators2d_match_plasma_neutrality(ad, el, (fx.copy(), fy.copy()), species_reps, ne_rep, te_rep, *donor_args, **dk)
         add("neut", "interpolators2d_match_plasma_neutrality@knots",
             [[float(itp[c](x, y)) for c in range(z + 1)] for x, y in grid], species=sp_list)
-        itp = ib.interpolators2d_fractional(ad, el, (fx.copy(), fy.copy()), ne_rep, te_rep, *donor_args)
+        itp = ib.interpolators2d_fractional(ad, el, (fx.copy(), fy.copy()), ne_rep, te_rep, *donor_args, **dk)
         mp = ib.abundance_axisymmetric_mapper(dict(reversed(list(itp.items()))))      # keys in descending order
         add("frac", "abundance_axisymmetric_mapper(interpolators2d_fractional)@knots",
             [[float(mp[c](x * 0.6, x * 0.8, y)) for c in range(z + 1)] for x, y in grid])
     elif rep == "eqmap":
         eq = rng_mod["equilibrium"]()
-        out = ib.fractional_abundance(ad, el, ne_rep, te_rep, *donor_args, free_variable=fv.copy())
+        out = ib.fractional_abundance(ad, el, ne_rep, te_rep, *donor_args, free_variable=fv.copy(), **dk)
         add("frac", "fractional_abundance[psin grid]", flat(out))
-        m3 = ib.equilibrium_map3d_fractional(ad, el, eq, fv.copy(), ne_rep, te_rep, *donor_args)
-        md = ib.equilibrium_map3d_from_elementdensity(ad, el, eq, fv.copy(), nel_rep, ne_rep, te_rep, *donor_args)
+        m3 = ib.equilibrium_map3d_fractional(ad, el, eq, fv.copy(), ne_rep, te_rep, *donor_args, **dk)
+        md = ib.equilibrium_map3d_from_elementdensity(ad, el, eq, fv.copy(), nel_rep, ne_rep, te_rep, *donor_args, **dk)
         case["lerp"] = []
         ax = eq.magnetic_axis
         tries = 0
@@ -559,7 +654,7 @@ def run_case(ib, rec, case, rng_mod):
                 case["lerp"].append({"k": k, "other": k + 1, "w": wex, "scale": None, "n_el": (nel_list[k], nel_list[k + 1]),
                                      "src": "equilibrium_map3d_from_elementdensity@(%r,0,%r)" % (r, zz),
                                      "values": [float(md[c](r, 0.0, zz)) for c in range(z + 1)]})
-        mn = ib.equilibrium_map3d_match_plasma_neutrality(ad, el, eq, fv.copy(), species_reps, ne_rep, te_rep, *donor_args)
+        mn = ib.equilibrium_map3d_match_plasma_neutrality(ad, el, eq, fv.copy(), species_reps, ne_rep, te_rep, *donor_args, **dk)
         # cubic interpolation between knots (map3d of an (x, y) pair): compared at the knots' flux surfaces only
         case["eq_neut"] = []
         for k in range(npts):
@@ -567,10 +662,73 @@ def run_case(ib, rec, case, rng_mod):
                 r = float(eq.psin_to_r(float(fv[k])))
                 case["eq_neut"].append({"k": k, "r": r, "psin_at_r": float(eq.psi_normalised(r, ax.y)),
                                         "values": [float(mn[c](r, 0.0, ax.y)) for c in range(z + 1)]})
-        out = ib.match_plasma_neutrality(ad, el, species_reps, ne_rep, te_rep, *donor_args, free_variable=fv.copy())
+        out = ib.match_plasma_neutrality(ad, el, species_reps, ne_rep, te_rep, *donor_args, free_variable=fv.copy(), **dk)
         add("neut", "match_plasma_neutrality[psin grid]", flat(out), species=sp_list)
     else:
         raise AssertionError(rep)
+    # ---- histories: the same stub, element and input objects used again; donor -> no donor -> donor -----------------
+    if rep in ("scalar", "array1d", "array2d", "fun1d", "fun1d_scalar", "fun2d", "mixed1d"):
+        first = [o["values"] for o in (pt["outs"][0] for pt in points)]
+        again = flat(ib.fractional_abundance(ad, el, ne_rep, te_rep, *donor_args, **dk, **kw))
+        if again != first:
+            extra_fails.append(("a second call with the same objects returns a different result", "fractional_abundance[%s]" % rep))
+        nod = flat(ib.fractional_abundance(ad, el, ne_rep, te_rep, **kw))           # no donor in between
+        for k, pt in enumerate(points):
+            ex0, _ = closed_form(pt["ion"], pt["rec"], None, pt["n_e"], 0.0)
+            if max(abs(F(a) - b) for a, b in zip(nod[k], ex0)) > base_tol(ex0):
+                extra_fails.append(("no-donor call after a donor call does not return the no-donor balance",
+                                    "fractional_abundance[%s] point %d: %s" % (rep, k, nod[k][:4])))
+                break
+        third = flat(ib.fractional_abundance(ad, el, ne_rep, te_rep, *donor_args, **dk, **kw))
+        if third != first:
+            extra_fails.append(("donor call after a no-donor call differs from the first donor call", "fractional_abundance[%s]" % rep))
+        d2 = flat(ib.from_elementdensity(ad, el, nel_rep, ne_rep, te_rep, *donor_args, **dk, **kw))
+        if d2 != [o["values"] for pt in points for o in pt["outs"] if o["kind"] == "dens"]:
+            extra_fails.append(("a second call with the same objects returns a different result", "from_elementdensity[%s]" % rep))
+    for nm, before in inputs_before:
+        now = {"n_e": ne_rep, "t_e": te_rep, "tcx_donor_n": nd_rep, "element_density": nel_rep}[nm]
+        if not (now.shape == before.shape and now.dtype == before.dtype and np.array_equal(now, before)):
+            extra_fails.append(("an entry point modified its input array", nm))
+    # ---- second-order call sites at point 0: rate helpers, private point / array functions with rates loaded by default
+    # and with the rates handed over explicitly (the path of fix ff3e771) -------------------------------------------------
+    p0 = points[0]
+    ci, cr = ib.get_rates_ionisation(ad, el), ib.get_rates_recombination(ad, el)
+    ct = ib.get_rates_tcx(ad, donor_el, donor_charge, el) if donor_el is not None else None
+    if sorted(int(k) for k in ci) != list(range(z)) or sorted(int(k) for k in cr) != list(range(1, z + 1)) or \
+            (ct is not None and sorted(int(k) for k in ct) != list(range(1, z + 1))):
+        extra_fails.append(("get_rates_* returned the wrong set of charges", "%s %s" % (sorted(ci), sorted(cr))))
+    else:
+        got = ([ci[c](p0["n_e"], p0["t_e"]) for c in range(z)], [cr[c](p0["n_e"], p0["t_e"]) for c in range(1, z + 1)],
+               None if ct is None else [ct[c](p0["n_e"], p0["t_e"]) for c in range(1, z + 1)])
+        if got != (p0["ion"], p0["rec"], p0["cx"]):
+            extra_fails.append(("get_rates_* returned rates of the wrong charge / element / donor", "point 0"))
+        nd0 = p0["n_d"] if donor_el is not None else 0
+        sp0 = [[float(v) for v in spc] for spc in p0["species"]]
+        helper_outs = [
+            ("frac", "_fractional_abundance_point", lambda: ib._fractional_abundance_point(el, p0["n_e"], p0["t_e"], ci, cr, ct, nd0), {}),
+            ("frac", "_fractional_abundance(explicit rates)",
+             lambda: ib._fractional_abundance(ad, el, np.array([p0["n_e"]]), np.array([p0["t_e"]]), donor_el, np.array([nd0]),
+                                              donor_charge, ci, cr, ct)[:, 0], {}),
+            ("frac", "_fractional_abundance(default rates)",
+             lambda: ib._fractional_abundance(ad, el, np.array([p0["n_e"]]), np.array([p0["t_e"]]), donor_el, np.array([nd0]),
+                                              donor_charge)[:, 0], {}),
+            ("dens", "_from_element_density_point(default rates)",
+             lambda: ib._from_element_density_point(ad, el, p0["n_el"], p0["n_e"], p0["t_e"], donor_el, nd0, donor_charge), {"n_el": p0["n_el"]}),
+            ("dens", "_from_element_density_point(explicit rates)",
+             lambda: ib._from_element_density_point(ad, el, p0["n_el"], p0["n_e"], p0["t_e"], donor_el, nd0, donor_charge, ci, cr, ct),
+             {"n_el": p0["n_el"]}),
+            ("neut", "_match_element_density_point(default rates)",
+             lambda: ib._match_element_density_point(ad, el, sp0, p0["n_e"], p0["t_e"], donor_el, nd0, donor_charge), {"species": p0["species"]}),
+            ("neut", "_match_element_density_point(explicit rates)",
+             lambda: ib._match_element_density_point(ad, el, sp0, p0["n_e"], p0["t_e"], donor_el, nd0, donor_charge, ci, cr, ct),
+             {"species": p0["species"]}),
+        ]
+        for kind, src, fn, extra in helper_outs:
+            vals = [float(v) for v in np.asarray(fn(), dtype=float).reshape(-1)]
+            if len(vals) != z + 1 or not all(np.isfinite(v) for v in vals):
+                raise NonFinite("non-finite / mis-shaped value from %s: %s" % (src, vals[:4]))
+            p0["outs"].append(dict({"kind": kind, "src": src, "values": vals, "coq": False}, **extra))
+    p0["extra_fails"] = extra_fails
     # reference for the cross-entry-point agreement: the scalar entry point at every point's own values
     # (search only; the scalar entry point itself is tied to the model by the scalar cases)
     if npts > 1 or rep not in ("scalar",):
